@@ -6281,6 +6281,45 @@ func ruleWinnerFromCompleteVote(r *Run) {
 				bad = rv.V.Name() + " at " + w.pos(rv.V.Pos())
 			}
 		}
+		// the winner starts afresh for every 2x2x2 cell: where the written value enters the loop over the vote table
+		// from outside, it is a constant, not a winner carried over from the previous cell
+		if bad == "" {
+			loops := naturalLoops(f)
+			seenPhi := map[ssa.Value]bool{}
+			var walk func(v ssa.Value)
+			walk = func(v ssa.Value) {
+				phi, ok := v.(*ssa.Phi)
+				if !ok || seenPhi[v] {
+					return
+				}
+				seenPhi[v] = true
+				// is this phi at the header of a loop that ranges over the vote table?
+				set := loops[phi.Block()]
+				voteLoop := false
+				for b := range set {
+					for _, in := range b.Instrs {
+						if nx, ok := in.(*ssa.Next); ok {
+							if rg, ok := nx.Iter.(*ssa.Range); ok {
+								if _, isMap := rg.X.Type().Underlying().(*types.Map); isMap {
+									voteLoop = true
+								}
+							}
+						}
+					}
+				}
+				for i, e := range phi.Edges {
+					pred := phi.Block().Preds[i]
+					if voteLoop && set != nil && !set[pred] {
+						if _, isK := e.(*ssa.Const); !isK {
+							bad = "the winner enters the loop over the vote table with a value carried from the previous cell (" + w.pos(phi.Pos()) + ")"
+						}
+						continue
+					}
+					walk(e)
+				}
+			}
+			walk(val)
+		}
 		r.check(bad == "", fmt.Sprintf("downresArray:written-label#%d:picked-over-the-vote-table", n), "the written label is a key picked in the loop over the vote table",
 			"the label written for a 2x2x2 cell can be one fixed outside the loop over the vote table ("+bad+"): with two labels at four votes each the documented tie-break (the smaller label) is skipped, and the stored lower-resolution block differs from the specified down-sampling", w.pos(c.Pos()))
 	}
